@@ -16,7 +16,7 @@ RULE = ('(a) TruncationMonitor on every depth-0 public UTPM call with D>1 while 
         'D\'=1 forward result against the program run on plain ndarrays; eigen/singular vectors only when the eigenvalues of A_0 are '
         'distinct; class = (call or program, D, shapes); non-trivial = some input coefficient of order >= D\' is non-zero')
 ASSUMPTIONS = ['the same operation on the truncated polynomial is the reference', 'eig is excluded (supports D<=2 only by its own assertion)']
-REQUIRED = ['truncation-shadow', 'program:forward', 'program:reverse', 'program:D1-equals-numpy', 'hostile:large-high-coefficients']
+REQUIRED = ['truncation-shadow', 'program:forward', 'program:reverse', 'program:D1-equals-numpy', 'hostile:large-high-coefficients', 'pattern', 'kink']
 
 _mon = None
 
@@ -40,6 +40,8 @@ def cases(tier, seed):
     out = pool.pool_cases(tier, seed, ['c01', 'c02', 'c07', 'c08', 'c13', 'c09'], 120 if tier == 'quick' else 800)
     if tier == 'thorough':
         out.insert(0, pool.ambient_case(PID))
+    if tier == 'thorough':
+        out.insert(0, pool.ambient_docs_case(PID))
     for prog in progs.cat():
         if {'fancy', 'nonunique'} & prog.tags:
             continue
@@ -47,6 +49,13 @@ def cases(tier, seed):
             out.append({'kind': 'program', 'seed': case_seed('C12', seed, prog.name, rep), 'params': {'prog': prog.name, 'P': 1 + rep % 2, 'D': [3, 2, 5][rep % 3]}})
     for i in range(80 if tier == 'quick' else 1500):
         out.append({'kind': 'program', 'seed': case_seed('C12', seed, 'comp', i), 'params': {'prog': 'comp', 'P': 1 + i % 2, 'D': 2 + i % 4}})
+    from .c01 import T as c01_table
+    for name in sorted(c01_table().keys()):
+        for pat in ('x1_zero', 'last_only', 'zeros_high', 'alternating'):
+            for D in ((3, 5) if tier == 'quick' else (2, 3, 4, 5, 7)):
+                out.append({'kind': 'pattern', 'seed': case_seed('C12', seed, 'pattern', name, pat, D), 'params': {'fn': name, 'pattern': pat, 'D': D}})
+    for i in range(12 if tier == 'quick' else 60):
+        out.append({'kind': 'kink', 'seed': case_seed('C12', seed, 'kink', i), 'params': {'D': 3 + i % 3}})
     for i in range(24 if tier == 'quick' else 200):
         out.append({'kind': 'hostile', 'seed': case_seed('C12', seed, 'hostile', i), 'params': {'which': i % 6, 'D': 3 + i % 3}})
     return out
@@ -55,16 +64,59 @@ def cases(tier, seed):
 def run_case(ctx, case):
     if case['kind'] == 'pool':
         return pool.run_host(case)
-    if case['kind'] == 'ambient':
+    if case['kind'] in ('ambient', 'ambient-docs'):
         probe.S.suppress = True
         try:
-            return pool.run_ambient(ctx, PID)
+            return pool.run_ambient(ctx, PID) if case['kind'] == 'ambient' else pool.run_ambient_docs(ctx, PID)
         finally:
             probe.S.suppress = False
     rng = gen.rng_of(case)
     if case['kind'] == 'hostile':
         return _hostile(ctx, case['params'], rng)
+    if case['kind'] == 'pattern':
+        return _pattern(ctx, case['params'], rng)
+    if case['kind'] == 'kink':
+        return _kink(ctx, case['params'], rng)
     return _program(ctx, case['params'], rng)
+
+
+def _pattern(ctx, p, rng):
+    """special coefficient patterns (x_1 identically zero, only the last coefficient non-zero, ...) through every elementary
+    and special function; the installed TruncationMonitor compares with the truncated runs"""
+    from .c01 import T as c01_table
+    t = c01_table()[p['fn']]
+    before = sum(ctx.violation_count.values())
+    for P in (1, 2):
+        data = gen.series_data(rng, p['D'], P, (2,), t['dom'], p['pattern'], False)
+        for ename, f in sorted(t['entries'].items()):
+            if ename in ('npy', 'npint', 'npf'):
+                continue
+            try:
+                f(UTPM(data.copy()))
+            except Exception:
+                ctx.skip('sut-raises:pattern')
+    if sum(ctx.violation_count.values()) == before:
+        ctx.ok('pattern', ('pattern', p['fn'], p['pattern'], p['D']))
+
+
+def _kink(ctx, p, rng):
+    """base points exactly on a kink (0 for abs/sign, ties for minimum/maximum, the bounds of clip, a zero of max): whatever
+    convention the library uses there, low-order coefficients must not depend on the truncation degree"""
+    D = p['D']
+    before = sum(ctx.violation_count.values())
+    for P in (1, 2):
+        a = rng.normal(size=(D, P, 4)) * rng.choice([-2.0, 2.0], size=(D, P, 4))
+        a[0] = 0.0; a[0, :, 3] = 1.0
+        b = rng.normal(size=(D, P, 4)); b[0] = a[0]                     # ties at order 0
+        X, Y = UTPM(a), UTPM(b)
+        for f in (lambda: abs(X), lambda: X.fabs(), lambda: algopy.absolute(X), lambda: algopy.sign(X), lambda: algopy.minimum(X, Y), lambda: algopy.maximum(X, Y),
+                  lambda: algopy.special.botched_clip(0.0, 1.0, X), lambda: UTPM.max(X), lambda: X * X, lambda: algopy.square(X), lambda: X ** 2, lambda: X ** 3):
+            try:
+                f()
+            except Exception:
+                ctx.skip('sut-raises:kink')
+    if sum(ctx.violation_count.values()) == before:
+        ctx.ok('kink', ('kink', D))
 
 
 def _hostile(ctx, p, rng):
